@@ -773,7 +773,7 @@ fn run_reader(f: fn(Shape, Reader, &mut SimInput) -> Result<Option<Vec<u128>>, c
 /// Apply the byte-level part of a fault to the medium.
 pub fn materialise(medium: &[u8], fault: &Fault) -> (Vec<u8>, Option<usize>) {
     match fault {
-        Fault::None | Fault::ReaderWider(_) => (medium.to_vec(), None),
+        Fault::None | Fault::ReaderWider(_) | Fault::TransientAt(_) => (medium.to_vec(), None),
         Fault::TruncateAt(t) => (medium[..(*t).min(medium.len())].to_vec(), None),
         Fault::IoErrorAt(t) => (medium.to_vec(), Some(*t)),
         Fault::BitFlip(p) => {
@@ -798,8 +798,11 @@ pub fn read_pass(table: &[Ops], t: &Trace, w: &Written, fault: &Fault, record: b
     if t.input.nest.is_some() {
         inp.hook = Some(&hook);
     }
+    if let Fault::TransientAt(x) = fault {
+        inp.transient_at = Some(*x);
+    }
     inp.log.ev(ev::PASS_BEGIN, fault.kind() as u64, match fault {
-        Fault::TruncateAt(x) | Fault::IoErrorAt(x) | Fault::BitFlip(x) => *x as u64,
+        Fault::TruncateAt(x) | Fault::IoErrorAt(x) | Fault::BitFlip(x) | Fault::TransientAt(x) => *x as u64,
         Fault::Trailing(b) => b.len() as u64,
         Fault::ReaderWider(l) => *l as u64,
         Fault::None => 0,
@@ -884,8 +887,16 @@ pub fn read_pass(table: &[Ops], t: &Trace, w: &Written, fault: &Fault, record: b
         inp.rl_err_returned = false;
         inp.calls = 0;
         let fired_before = inp.nest_fired;
+        let transient_before = inp.transient_fired;
         let out = run_reader(rops.dec, r.shape, reader, &mut inp);
         stats.records_read += 1;
+        if inp.transient_fired && !transient_before {
+            // a read issued by this decode failed after consuming part of what it asked for: those bytes
+            // are gone, the decode must fail (the integer's does); asking again completes the value from
+            // bytes that do not belong to it
+            want = Want::MustErr;
+            stats.fired = true;
+        }
         if let Some(m) = inp.nest_fail.take() {
             if let Some((id, m2)) = standalone_failure(table, t) {
                 violation = Some(viol(id, i, fault, format!("(met as the second task of this history, but independent of the interleaving) {}", m2)));
@@ -966,6 +977,7 @@ pub fn read_pass(table: &[Ops], t: &Trace, w: &Written, fault: &Fault, record: b
             Want::MustErr => {
                 match &out {
                     Outcome::Err(_) => {}
+                    Outcome::Ok(v) if matches!(fault, Fault::TransientAt(_)) => violation = Some(viol("D3", i, fault, format!("{}: a read of this decode failed after consuming part of the record (transient failure), yet decoding returned Ok({:x?})", desc(), v))),
                     Outcome::Ok(v) => violation = Some(viol("D3", i, fault, format!("{}: only {} of the record's {} bytes were deliverable, yet decoding returned Ok({:x?})", desc(), cut.map(|c| c.saturating_sub(s)).unwrap_or(e - s), e - s, v))),
                     Outcome::Panic(m) => violation = Some(viol("D3", i, fault, format!("{}: decoding short input unwound instead of returning Err: {}", desc(), m))),
                 }
@@ -984,6 +996,7 @@ pub fn read_pass(table: &[Ops], t: &Trace, w: &Written, fault: &Fault, record: b
                     inp.data = &w.medium;
                     inp.pos = s;
                     inp.err_from = None;
+                    inp.transient_at = None;
                     inp.mode = InputMode::plain();
                     inp.io = None;
                     inp.hook = None;
